@@ -466,7 +466,45 @@ pub fn gen_micro(rng: &mut Rng, idx: u64) -> (Case, MicroInfo) {
             pkt = pkt_for(rng);
             let w = info.width as i64;
             let t = rng.range(0, pkt.len() as i64 - w);
-            if info.shape == Shape::LdAbs {
+            if kind == Kind::Raw && rng.chance(1, 3) {
+                // load - store to the same bytes - identical load again: the second load must see
+                // the store (a compiler must not reuse the first load)
+                template = "ld-st-ld";
+                let is_abs = info.shape == Shape::LdAbs;
+                let k = if is_abs { t } else { rng.range(0, t) };
+                b.i(MOV64_REG, 6, 1, 0, 0);
+                if !is_abs {
+                    b.lddw(8, (t - k) as u64);
+                }
+                let ld = |b: &mut Builder| {
+                    if is_abs { b.i(opc, 0, 0, 0, t as i32) } else { b.i(opc, 0, 8, 0, k as i32) }
+                };
+                ld(&mut b);
+                b.i(MOV64_REG, 7, 0, 0, 0);
+                // overlapping store of a random width at a random position inside the loaded bytes
+                let sw = *rng.pick(&[1i64, 2, 4, 8]);
+                let lo = (t - sw + 1).max(0);
+                let hi = (t + w - 1).min(pkt.len() as i64 - sw);
+                let st_at = if lo <= hi { rng.range(lo, hi) } else { t.min(pkt.len() as i64 - sw).max(0) };
+                let ssz = match sw {
+                    1 => 0x10,
+                    2 => 0x08,
+                    4 => 0x00,
+                    _ => 0x18,
+                };
+                if (pkt.len() as i64) >= sw {
+                    if rng.chance(1, 2) {
+                        b.i(0x62 | ssz, 6, 0, st_at as i16, rng.next() as i32);
+                    } else {
+                        b.lddw(9, rng.next());
+                        b.i(0x63 | ssz, 6, 9, st_at as i16, 0);
+                    }
+                }
+                ld(&mut b);
+                b.i(MUL64_IMM, 7, 0, 0, 31);
+                b.i(XOR64_REG, 0, 7, 0, 0);
+                b.exit();
+            } else if info.shape == Shape::LdAbs {
                 b.i(opc, if rng.chance(1, 8) { dst } else { 0 }, 0, 0, t as i32);
             } else {
                 if src == 10 {
